@@ -189,6 +189,9 @@ impl<T: Borrow<SetU64>> Iterator for Inner<T> {
     }
     #[inline]
     fn last(self) -> Option<Self::Item> {
+        if self.sz_left == 0 {
+            return None;
+        }
         match self.set.borrow().internal() {
             Internal::Empty => None,
             Internal::Stack(t) => t.max(),
@@ -198,7 +201,8 @@ impl<T: Borrow<SetU64>> Iterator for Inner<T> {
                 .cloned()
                 .filter(|&x| x != 0)
                 .map(|x| {
-                    x >> self.bits + (x & mask(self.bits as usize)).leading_zeros() as u64 - 63
+                    (x >> self.bits) * self.bits + 63
+                        - (x & mask(self.bits as usize)).leading_zeros() as u64
                 })
                 .next(),
             Internal::Big { a, .. } => a
@@ -209,9 +213,6 @@ impl<T: Borrow<SetU64>> Iterator for Inner<T> {
                 .map(|x| if x == self.bits { 0 } else { x })
                 .next(),
             Internal::Dense { a, .. } => {
-                if self.sz_left == 0 {
-                    return None;
-                }
                 let zero_words = a.iter().rev().cloned().take_while(|&x| x == 0).count() as u64;
                 let zero_bits = a[a.len() - 1 - zero_words as usize].leading_zeros() as u64;
                 Some(a.len() as u64 * 64 - zero_bits - 1 - zero_words * 64)
@@ -225,7 +226,8 @@ impl<T: Borrow<SetU64>> Iterator for Inner<T> {
         }
         match self.set.borrow().internal() {
             Internal::Empty => None,
-            Internal::Stack(t) => t.min(),
+            // Inline sets iterate in increasing order.
+            Internal::Stack(_) => self.next(),
             Internal::Heap { a, .. } => {
                 if self.whichbit == 0 {
                     let x = a.into_iter().cloned().filter(|x| *x != 0).min().unwrap();
@@ -240,7 +242,7 @@ impl<T: Borrow<SetU64>> Iterator for Inner<T> {
                     Some(min)
                 }
             }
-            Internal::Big { a, .. } => a
+            Internal::Big { a, .. } => a[self.index..]
                 .into_iter()
                 .cloned()
                 .filter(|x| *x != 0)
@@ -276,7 +278,7 @@ impl<T: Borrow<SetU64>> Iterator for Inner<T> {
             }
             Internal::Big { a, .. } => {
                 let mut biggest = 0;
-                for &x in a {
+                for &x in &a[self.index..] {
                     if x != 0 {
                         biggest = biggest.max(if x == self.bits { 0 } else { x });
                     }
